@@ -99,6 +99,13 @@ type APIServer struct {
 // StartAPIServer builds a world (wallets W1 for client c1, W2 for client c2, distributed wallet DW for both) and
 // serves it with the repository's gRPC service, TLS material minted on the spot.
 func StartAPIServer(ctx context.Context, log *Log) (*APIServer, error) {
+	return StartAPIServerMode(ctx, log, "bare")
+}
+
+// StartAPIServerMode: mode says how the server's own certificate file is set up - "bare" (leaf issued by the client CA),
+// "samechain" (that leaf followed by the CA certificate), "foreignchain" (a leaf of the OTHER authority followed by that
+// authority's certificate).  The configured client CA is the same in all three.
+func StartAPIServerMode(ctx context.Context, log *Log, mode string) (*APIServer, error) {
 	pki, err := NewPKI("verif CA")
 	if err != nil {
 		return nil, err
@@ -148,10 +155,18 @@ func StartAPIServer(ctx context.Context, log *Log) (*APIServer, error) {
 		cancel()
 		return nil, err
 	}
-	sder, skey, err := pki.Issue("signer-1", true, false, false)
+	issuer := pki
+	if mode == "foreignchain" {
+		issuer = other
+	}
+	sder, skey, err := issuer.Issue("signer-1", true, false, false)
 	if err != nil {
 		cancel()
 		return nil, err
+	}
+	serverPEM := certPEM(sder)
+	if mode == "samechain" || mode == "foreignchain" {
+		serverPEM = append(append([]byte{}, serverPEM...), issuer.CAPEM...)
 	}
 	l, err := net.Listen("tcp", "127.0.0.1:0")
 	if err != nil {
@@ -161,7 +176,7 @@ func StartAPIServer(ctx context.Context, log *Log) (*APIServer, error) {
 	addr := l.Addr().String()
 	_ = l.Close()
 	if _, err := grpcapi.New(sctx, grpcapi.WithSigner(st.Signer), grpcapi.WithLister(st.Lister), grpcapi.WithProcess(proc), grpcapi.WithAccountManager(am),
-		grpcapi.WithWalletManager(wm), grpcapi.WithPeers(peersSvc), grpcapi.WithName("signer-1"), grpcapi.WithID(1), grpcapi.WithServerCert(certPEM(sder)),
+		grpcapi.WithWalletManager(wm), grpcapi.WithPeers(peersSvc), grpcapi.WithName("signer-1"), grpcapi.WithID(1), grpcapi.WithServerCert(serverPEM),
 		grpcapi.WithServerKey(keyPEM(skey)), grpcapi.WithCACert(pki.CAPEM), grpcapi.WithListenAddress(addr)); err != nil {
 		cancel()
 		return nil, err
@@ -180,6 +195,7 @@ func (a *APIServer) Stop(ctx context.Context) {
 func (a *APIServer) Dial(ctx context.Context, cred string) (*grpc.ClientConn, error) {
 	pool := x509.NewCertPool()
 	pool.AddCert(a.PKI.CACert)
+	pool.AddCert(a.Other.CACert) // the clients accept the server certificate of either hierarchy
 	cfg := &tls.Config{RootCAs: pool, ServerName: "localhost", MinVersion: tls.VersionTLS13}
 	leaf := func(p *PKI, cn string, self, expired bool) (tls.Certificate, error) {
 		der, key, err := p.Issue(cn, false, self, expired)
